@@ -424,7 +424,7 @@ Eff(op, g) ==
          LET full == op.mode \in {"full", "load_full"} IN
          Unit(St(wt, width, abs, (store \cap Low(BitLen)) \cup g.garb, g.nw,
                  IF full THEN (IF form = "boxed" THEN "boxed" ELSE "vec")
-                 ELSE IF op.mode = "eps" THEN "eps" ELSE "mmap",
+                 ELSE IF op.mode \in {"eps", "eps8"} THEN "eps" ELSE "mmap",
                  IF full /\ form \in {"vec", "boxed"} THEN built ELSE "no"))
 
 \* A clone must have the same contents; its storage beyond them is unconstrained.
